@@ -261,6 +261,8 @@ def jobs(tier, seed):
                 for b in bursts:
                     js.append({'harness': 'port', 'weight': 10 if mode != 'none' else 1,
                                'cfg': {'rate': rate, 'mode': mode, 'n': n, 'sorts': sort, 'burst': b}})
+    # an element id that is falsy but present ('' is a string like any other)
+    js.append({'harness': 'port', 'weight': 1, 'cfg': {'rate': 8, 'mode': 'none', 'n': 2, 'sorts': 'int', 'burst': [0, 0], 'eid': ''}})
     for rate in (0, 8):
         for incl in (True, False):
             for sort in (('int',) if tier == 'quick' else ('int', 'real')):
